@@ -593,6 +593,11 @@ func vC15Frame(sizes []int, stray bool, resumeMode int) {
 	control.buf = binary.BigEndian.AppendUint32(control.buf, cs)
 	control.buf = binary.BigEndian.AppendUint64(control.buf, key)
 	control.buf = append(control.buf, HashAlgCRC32C, 0, 0, 0, 0, 0, 0, 0, 0, 0, 0, 0, 0)
+	if stray {
+		// natively FileEnd and End arrive a little later, so that the data stream is processed first (the
+		// engine explores that order among the others)
+		control.gateAt, control.gateDelay = len(control.buf), 40
+	}
 	_ = writeFileEnd(control, FileEnd{StreamID: key})
 	_ = writeControlEnd(control)
 	data := &vMemStream{}
